@@ -173,7 +173,10 @@ func shortCallee(s string) string {
 	return strings.NewReplacer("(", "", ")", "", "*", "").Replace(s)
 }
 
-func checkErrorsPropagated(c *Ctx, p *Prog, pkg, rule string) {
+func checkErrorsPropagated(c *Ctx, p *Prog, pkg, rule string, extra ...errSwallow) {
+	saved := errSwallowOK
+	errSwallowOK = append(append([]errSwallow{}, saved...), extra...)
+	defer func() { errSwallowOK = saved }()
 	n := 0
 	for _, f := range p.FuncsIn(pkg) {
 		if f.Parent() != nil || len(f.Blocks) == 0 || f.Synthetic != "" {
